@@ -48,6 +48,7 @@ def tokenize(src):
 class Parser:
     def __init__(self, toks):
         self.t, self.i = toks, 0
+        self.nostruct = 0      # >0 while parsing an `if` / `while` condition: `Name {` is not a struct literal there
     def peek(self, k=0):
         return self.t[self.i + k] if self.i + k < len(self.t) else ("eof", "")
     def next(self):
@@ -97,7 +98,9 @@ class Parser:
             return ("expr", self.if_())
         if v == "while":
             self.next()
+            self.nostruct += 1
             c = self.expr(no_struct=True)
+            self.nostruct -= 1
             return ("while", c, self.block())
         if v == "return":
             self.next()
@@ -118,7 +121,9 @@ class Parser:
 
     def if_(self):
         self.expect("if")
+        self.nostruct += 1
         c = self.expr(no_struct=True)
+        self.nostruct -= 1
         th = self.block()
         el = None
         if self.accept("else"):
@@ -202,15 +207,29 @@ class Parser:
                 while not self.accept(")"):
                     args.append(self.expr()); self.accept(",")
                 return ("fncall", "::".join(path), args)
+            if self.peek() == ("op", "{") and self.nostruct == 0 and path[-1][:1].isupper():
+                self.next(); fields = []
+                saved = self.nostruct; self.nostruct = 0
+                while not self.accept("}"):
+                    fname = self.next()[1]
+                    if self.accept(":"): fields.append((fname, self.expr()))
+                    else: fields.append((fname, ("id", fname)))
+                    self.accept(",")
+                self.nostruct = saved
+                return ("struct", "::".join(path), fields)
             return ("id", "::".join(path))
         if v == "(":
-            e = self.expr()
-            if self.accept(","):
-                items = [e]
-                while not self.accept(")"):
-                    items.append(self.expr()); self.accept(",")
-                return ("tuple", items)
-            self.expect(")"); return ("paren", e)
+            saved = self.nostruct; self.nostruct = 0
+            try:
+                e = self.expr()
+                if self.accept(","):
+                    items = [e]
+                    while not self.accept(")"):
+                        items.append(self.expr()); self.accept(",")
+                    return ("tuple", items)
+                self.expect(")"); return ("paren", e)
+            finally:
+                self.nostruct = saved
         if v == "[":
             items = []
             if self.accept("]"): return ("array", items)
@@ -236,6 +255,12 @@ class Gen:
         self.helpers = helpers or {}    # method name -> (params, expr AST) single-expression helpers of the same impl
         self.n = 0
         self.uses_fuel = False
+        self.calls = {}                 # rust path / method name -> (gallina term, "pure" | "nres"): modelled callees
+        self.identity_calls = set()     # wrappers that do not change the bytes (X::from_le_bytes, .as_le_bytes(), ...)
+        self.structs = {}               # struct name -> field order of the tuple that stands for it
+        self.draws = {}                 # type name -> gallina term of the number of bytes X::randomized() draws
+        self.field_draws = {}           # "self.f" -> gallina term of the number of bytes f.randomize_data() draws
+        self.tape = None                # gallina name of the tape variable when the body draws randomness
         self.free_helpers = {}          # free fn name -> ([(param, type)], expr AST): single-expression fns of the same file, inlined
         self.externs = {}               # "self.m" / "self.f.m" -> (gallina function, state key): opaque calls (state, array) -> (state, array)
         self.usize_vars = set()         # un-annotated integer variables that Rust infers as usize (used as an index / against .len())
@@ -288,6 +313,36 @@ class Gen:
                     return "match nth_error %s (N.to_nat %s) with None => None | Some %s =>\n  %s end" % (a, i, v, k(v, ta[1]))
                 return self.expr(e[2], ki, "usize")
             return self.expr(e[1], ka)
+        if kind == "struct":
+            name = e[1].split("::")[-1]
+            if name not in self.structs: raise Untranslatable("struct literal %s" % name)
+            given = dict(e[2])
+            order = self.structs[name]
+            if set(given) != set(order): raise Untranslatable("fields of %s: %s" % (name, sorted(given)))
+            def gos(i, acc):
+                if i == len(order): return k("(" + ", ".join(acc) + ")" if len(acc) > 1 else acc[0], ("struct", name))
+                return self.expr(given[order[i]], lambda t, tt: gos(i + 1, acc + [t]))
+            return gos(0, [])
+        if kind == "fncall" and e[1] in ("Ok", "Err") and len(e[2]) == 1:
+            return self.expr(e[2][0], lambda t, tt: k("(%s %s)" % ("inl" if e[1] == "Ok" else "inr", t), ("result", e[1], tt)))
+        if kind == "fncall" and e[1] in self.identity_calls and len(e[2]) == 1:
+            return self.expr(e[2][0], k, want)
+        if kind == "fncall" and e[1].endswith("::randomized") and not e[2]:
+            ty = e[1].split("::")[-2]
+            if ty not in self.draws or self.tape is None: raise Untranslatable("random draw of %s" % ty)
+            v = self.fresh("r")
+            return "let '(%s, %s) := draw (N.to_nat %s) %s in\n  %s" % (v, self.tape, self.draws[ty], self.tape, k(v, ("arr", "u8")))
+        if kind == "fncall" and e[1] in self.calls:
+            g, mode = self.calls[e[1]]
+            args = e[2]
+            def goc(i, acc):
+                if i == len(args):
+                    call = "(%s %s)" % (g, " ".join(acc)) if acc else g
+                    if mode == "pure": return k(call, ("arr", "u8"))
+                    v = self.fresh("c")
+                    return "match %s with Ok %s =>\n  %s | _ => None end" % (call, v, k(v, ("arr", "u8")))
+                return self.expr(args[i], lambda t, tt: goc(i + 1, acc + [t]))
+            return goc(0, [])
         if kind == "tuple":
             items = e[1]
             def got(i, acc, tys):
@@ -334,6 +389,8 @@ class Gen:
                 return self.expr(e[2], ks)
             def kl(a, ta):
                 def kr(b, tb):
+                    if op in ("==", "!=") and isinstance(ta, tuple) and ta[0] == "arr" and isinstance(tb, tuple) and tb[0] == "arr":
+                        return k("(list_eqb %s %s)" % (a, b) if op == "==" else "(negb (list_eqb %s %s))" % (a, b), "bool")
                     if op in ("==", "!=", "<", ">", "<=", ">="):
                         self.unify(ta, tb, op)
                         term = {"==": "(%s =? %s)", "!=": "(negb (%s =? %s))", "<": "(%s <? %s)", ">": "(%s <? %s)", "<=": "(%s <=? %s)", ">=": "(%s <=? %s)"}[op]
@@ -375,6 +432,8 @@ class Gen:
                         return k("((%s * %s) mod %d)" % (a, b, m), t)
                     return self.expr(args[0], kb, ta)
                 return self.expr(recv, ka, want)
+            if name in self.identity_calls and not args:
+                return self.expr(recv, k, want)
             if name in ("to_be_bytes", "to_le_bytes") and not args:
                 def kb_(a, ta):
                     if ta not in BITS: raise Untranslatable(".%s() of %s" % (name, ta))
@@ -507,6 +566,13 @@ class Gen:
                     raise Untranslatable("assignment changes the type of %s: %s := %s" % (key, t0, tt))
                 return "let %s := %s in\n  %s" % (g, t, self.stmts(rest, final))
             return self.expr(e, k, t0 if t0 in BITS else None)
+        if s[0] == "expr_stmt" and s[1][0] == "call" and s[1][2] == "randomize_data" and not s[1][3]:
+            key = self.lhs_key(s[1][1])
+            if key is None or key not in self.env or self.tape is None: raise Untranslatable("randomize_data target")
+            g, ty = self.env[key]
+            n_ = self.field_draws.get(key)
+            if n_ is None: raise Untranslatable("size of the random draw for %s" % key)
+            return "let '(%s, %s) := draw (N.to_nat %s) %s in\n  %s" % (g, self.tape, n_, self.tape, self.stmts(rest, final))
         if s[0] == "expr_stmt" and s[1][0] == "call":
             e = s[1]
             path = None
